@@ -92,7 +92,8 @@ def layer_harnesses() -> List[H]:
             dt += [(20 + 4 * (i - 5) + 2, 0, 0x40 + i) for i in range(5, 16)]          # every IHL, options fit
             dt += [(20 + 4 * (i - 5) - 1, 0, 0x40 + i) for i in range(6, 16)]          # options cut by one byte
             dt += [(24, 0, 0x40 + i) for i in range(0, 5)] + [(24, 0, 0x65), (64, 0, 0x4F), (78, 14, 0x4F),
-                                                              (37, 18, 0x45), (38, 18, 0x45), (42, 18, 0x46)]
+                                                              (37, 18, 0x45), (38, 18, 0x45), (42, 18, 0x46),
+                                                              (41, 22, 0x45), (42, 22, 0x45), (46, 22, 0x46), (45, 22, 0x46)]
             dt += [(l, 0, -1) for l in range(1, 20)] + [(l, 14, -1) for l in range(15, 34)]    # truncated fixed header, any IHL
             for off in (14, 18):                                                       # same at non-zero offsets
                 dt += [(off + 4 * i, off, 0x40 + i) for i in (6, 7, 10, 15)]           # options just fit
@@ -105,14 +106,14 @@ def layer_harnesses() -> List[H]:
             sq = [(20, 0, 0x45), (24, 0, 0x45), (24, 0, 0x46), (24, 0, 0x43), (40, 14, 0x46)]
             st = [(l, 0, 0x45) for l in range(20, 27)]
             st += [(20 + 4 * (i - 5) + 2, 0, 0x40 + i) for i in range(5, 16)]
-            st += [(24, 0, 0x40 + i) for i in range(0, 5)] + [(64, 0, 0x4F), (78, 14, 0x4F), (42, 18, 0x46), (24, 0, 0x65)]
+            st += [(24, 0, 0x40 + i) for i in range(0, 5)] + [(64, 0, 0x4F), (78, 14, 0x4F), (42, 18, 0x46), (24, 0, 0x65), (48, 22, 0x46)]
             stamps(lname, "ser", "quick", sq, "C15", "ser", ", 1 symbolic compare index")
             stamps(lname, "ser", "thorough", st, "C15", "ser", ", 1 symbolic compare index")
             continue
         # ---------------- C16 decode: field getters + accept/reject + no panic
         quick = [(hsz - 1, 0), (hsz, 0), (hsz + 4, 0), (14 + hsz, 14)]
         thorough = [(l, 0) for l in _lens_full(hsz, 0)]
-        for off in (14, 18):
+        for off in (14, 18, 22):          # behind Ethernet, one VLAN tag, two VLAN tags (QinQ)
             thorough += [(off - 1, off), (off + hsz - 1, off), (off + hsz, off), (off + hsz + 5, off)]
         if lname == "tcp":
             thorough += [(24, 0), (60, 0), (64, 0)]
@@ -128,7 +129,7 @@ def layer_harnesses() -> List[H]:
         stamps(lname, "payoff", "thorough", [(l, o, -1) for (l, o) in po_t], "C16", "payoff")
         # ---------------- C15 SER(X): serialise(parse(raw)) == raw
         s_q = [(hsz, 0), (hsz + 4, 0)]
-        s_t = [(l, 0) for l in range(hsz, hsz + 7)] + [(14 + hsz, 14), (14 + hsz + 5, 14), (18 + hsz + 3, 18)]
+        s_t = [(l, 0) for l in range(hsz, hsz + 7)] + [(14 + hsz, 14), (14 + hsz + 5, 14), (18 + hsz + 3, 18), (22 + hsz + 2, 22)]
         if lname == "tcp":
             s_q += [(24, 0)]
             s_t += [(60, 0), (64, 0)]
